@@ -87,6 +87,8 @@ def _handle_seq_line(line, acc):
         if validated:
             acc.count("traces_validated")
         if vcls is not None:
+            if 'd' in flags:
+                vcls += "+dupkeys"      # sequences with a repeated member name form failure families of their own
             acc.violation(cfg, vcls, "A|%s|%s|%s|%s" % (cfg, stage, names, vcls), detail + "  pushed: " + mvt[:200])
         else:
             if nontrivial:
